@@ -769,8 +769,14 @@ def model_obs(case, hashes, ans):
     touched = case["mode"] == "mutate"
     if case.get("form"):
         rep = run["report"]
+        exc = "RuntimeError" if rep == "raised" else None
+        if exc and not same:
+            # `expand_workflow_async` formats the failed node as f"... {job.task!r} ..." while it collects the node errors;
+            # if that repr itself raises (Task.__repr__ compares every value with its default: ambiguous for a numpy array
+            # of more than one element), that exception is what leaves the workflow job instead of the RuntimeError summary
+            exc = node_repr_exc(case) or exc
         return {
-            "exc": "RuntimeError" if rep == "raised" else None,
+            "exc": exc,
             "logged": rep == "logged",
             "changed": run["changed"] if rep == "raised" and same else None,
             "dir": run["dir"],
@@ -792,6 +798,19 @@ def model_obs(case, hashes, ans):
         "stored_errored": False,
         "orig_changed": orig_changed,
     }
+
+
+def node_repr_exc(case):
+    """class name of the exception `repr()` of the mutating job's task raises (None if it does not): part of the error
+    path of the asynchronous workflow expansion, evaluated here directly on an equal task"""
+    v = make_value(case["kind"], case["value"])
+    if case["mode"] == "mutate":
+        body(case["kind"], v, "mutate")
+    try:
+        repr(PObj(v=v, mode=case["mode"], kind=case["kind"]))
+    except Exception as e:
+        return core.exc_tag(e)
+    return None
 
 
 def is_d60(case) -> bool:
@@ -883,6 +902,9 @@ CORPUS = [
     {"kind": "list", "value": [1, 2], "mode": "mutate", "worker": "cf", "form": "node", "raise_errors": None},
     {"kind": "list", "value": [1, 2], "mode": "mutate", "worker": "cf", "form": "split", "states": 3, "raise_errors": None},
     {"kind": "dict", "value": {"k0": 1}, "mode": "mutate", "worker": "cf", "form": "nested", "raise_errors": True},
+    # a node whose task cannot be repr()-ed (multi-element ndarray input): the async expansion's error summary raises
+    # ValueError instead of RuntimeError — still an error to the caller (alarm of thorough seed 3)
+    {"kind": "ndarray", "value": [34, 16, 24], "mode": "mutate", "worker": "cf", "form": "node", "raise_errors": True},
     {"kind": "list", "value": [1, 2], "mode": "mutate", "worker": "debug", "form": "node", "raise_errors": None},
     {"kind": "plain", "value": {"a": 1, "items": [1]}, "mode": "mutate", "worker": "debug", "form": "split", "states": 2, "raise_errors": None},
     {"kind": "tuple", "value": {"a": 0, "items": [1, 2, 3]}, "mode": "restore", "worker": "debug", "form": "nested", "raise_errors": None},
